@@ -11,6 +11,7 @@ use std::process::{Command, Stdio};
 
 pub struct BracketHelper {
     v: MatchingBracketValidator,
+    script: bool,
 }
 impl Completer for BracketHelper {
     type Candidate = String;
@@ -21,18 +22,43 @@ impl Hinter for BracketHelper {
 impl Highlighter for BracketHelper {}
 impl Validator for BracketHelper {
     fn validate(&self, ctx: &mut ValidationContext) -> rustyline::Result<ValidationResult> {
+        if self.script {
+            // scripted verdicts, decided by what the text contains (same table as the tty child)
+            let input = ctx.input();
+            return if input.contains("##") {
+                Err(rustyline::error::ReadlineError::Io(std::io::Error::new(
+                    std::io::ErrorKind::Other,
+                    "scripted validator error",
+                )))
+            } else if input.contains("!!") {
+                Ok(ValidationResult::Invalid(Some(" <-- bad".to_owned())))
+            } else if input.contains("~~") {
+                Ok(ValidationResult::Invalid(Some(String::new())))
+            } else if input.contains("??") {
+                Ok(ValidationResult::Invalid(None))
+            } else if input.ends_with('\\') {
+                Ok(ValidationResult::Incomplete)
+            } else if input.contains("ok") {
+                Ok(ValidationResult::Valid(Some(" fine".to_owned())))
+            } else {
+                Ok(ValidationResult::Valid(None))
+            };
+        }
         self.v.validate(ctx)
     }
 }
 impl Helper for BracketHelper {}
 
-pub fn child(with_validator: bool) {
+/// kind: "0" no validator, "1" the shipped bracket validator, "2" the scripted validator
+pub fn child(kind: &str) {
+    let with_validator = kind != "0";
+    let script = kind == "2";
     let mut out = std::io::stdout();
     let mut results: Vec<String> = Vec::new();
     let r = guarded(|| {
         let mut rl: Editor<BracketHelper, rustyline::history::DefaultHistory> = Editor::new().unwrap();
         if with_validator {
-            rl.set_helper(Some(BracketHelper { v: MatchingBracketValidator::new() }));
+            rl.set_helper(Some(BracketHelper { v: MatchingBracketValidator::new(), script }));
         }
         let mut res = Vec::new();
         for _ in 0..400 {
@@ -55,7 +81,7 @@ pub fn child(with_validator: bool) {
         Some(v) => results = v,
         None => results.push("PANIC".to_owned()),
     }
-    writeln!(out, "{}", results.join(" ")).unwrap();
+    writeln!(out, "\nRESULT {}", results.join(" ")).unwrap();
 }
 
 /// case: `<0|1> <bytes>`
@@ -83,7 +109,8 @@ pub fn run(inp: &mut dyn BufRead, out: &mut dyn Write) {
         }
         let o = ch.wait_with_output().unwrap();
         let s = String::from_utf8_lossy(&o.stdout);
-        let s = s.trim();
+        // the validator's messages are written to stdout as well: the results are on the last RESULT line
+        let s = s.rfind("\nRESULT ").map_or("", |i| s[i + 8..].trim());
         if s.is_empty() {
             writeln!(out, "CHILD-DIED").unwrap();
         } else {
